@@ -227,8 +227,7 @@ fn has_dup(r: &RN) -> bool {
 pub fn loader_inputs(tier: &str, seed: u64, shard: u64, nshards: u64, scale: f64, stats: &mut Stats, f: &mut dyn FnMut(&str, &mut Stats)) {
     let thorough = tier == "thorough";
     let b = family::Budget {
-        g1_len: if thorough { 5 } else if tier == "miri" { 1 } else { 4 },
-        g1_alphas: if thorough { 2 } else { 1 },
+        g1_lens: if thorough { [5, 5, 0] } else if tier == "miri" { [1, 0, 0] } else { [4, 0, 0] },
         g1_sampled: 0,
         random: ((if thorough { 2_000_000.0 } else { 90_000.0 }) * scale) as u64,
         long: 0,
@@ -332,6 +331,37 @@ pub fn check_c19(input: &str, stats: &mut Stats, rng: &mut Rng) {
                 }
                 if !h || !ho {
                     viol(stats, "C19/marked-hash-depends-on-span".into(), "two marked trees with the same data but different spans hash differently".into(), case_json(input, vec![]));
+                }
+            }
+        }
+    }
+
+    // marked nodes with the *same* spans but different data must not compare equal: change one
+    // letter of the input (same layout, same spans) and compare the two loads
+    if let Some(pos) = input.char_indices().find(|(_, c)| c.is_ascii_lowercase()).map(|x| x.0) {
+        let mut other = input.to_string();
+        let old = other.as_bytes()[pos];
+        let new = if old == b'q' { "w" } else { "q" };
+        other.replace_range(pos..pos + 1, new);
+        let r = catch(|| {
+            let x = MarkedYaml::load_from_str(input).ok()?;
+            let y = MarkedYaml::load_from_str(&other).ok()?;
+            let xo = MarkedYamlOwned::load_from_str(input).ok()?;
+            let yo = MarkedYamlOwned::load_from_str(&other).ok()?;
+            let data_differs = x.iter().map(cn_marked).collect::<Vec<_>>() != y.iter().map(cn_marked).collect::<Vec<_>>();
+            let same_root_spans = x.len() == y.len() && x.iter().zip(y.iter()).all(|(p, q)| p.span == q.span);
+            Some((data_differs, same_root_spans, x == y, xo == yo))
+        });
+        if let Ok(Some((data_differs, same_root_spans, eq, eqo))) = r {
+            if data_differs && same_root_spans {
+                stats.cnt("marked_pairs_same_span_different_data", 1);
+                if eq || eqo {
+                    viol(
+                        stats,
+                        "C19/marked-eq-ignores-data".into(),
+                        "two marked trees with different data (and identical spans) compare equal".into(),
+                        J::obj(vec![("input", J::s(input)), ("other", J::s(&other))]),
+                    );
                 }
             }
         }
